@@ -812,6 +812,9 @@ class Shelxfile():
             elif word == 'HOPE':
                 # print('*** HOPE is deprecated! Do not use it! ***')
                 pass
+            elif word in ('TIME', 'CHAN', 'FLAP', 'RNUM', 'SOCC', 'RANG', 'TANG', 'ADDA', 'STAG', 'REST', 'NOTR'):
+                # Valid SHELXL instructions (see SHX_CARDS) without a class of their own: the line is kept as it is.
+                pass
             elif line.startswith('+'):
                 pass
             elif word == 'TITL':
